@@ -347,57 +347,80 @@ class OpenDocument:
         assert(type(result)==type(u""))
         return result
 
+    # Every attribute the ODF 1.2 schema types as styleNameRef / styleNameRefs, plus
+    # style:list-style-name (typed "styleName | empty" but a reference by its meaning)
+    _STYLE_REF_ATTRS = (
+        (CHARTNS,u'style-name'),
+        (DBNS,u'default-cell-style-name'), (DBNS,u'default-row-style-name'), (DBNS,u'style-name'),
+        (DRAWNS,u'fill-gradient-name'), (DRAWNS,u'fill-hatch-name'), (DRAWNS,u'fill-image-name'),
+        (DRAWNS,u'marker-end'), (DRAWNS,u'marker-start'), (DRAWNS,u'master-page-name'),
+        (DRAWNS,u'opacity-name'), (DRAWNS,u'stroke-dash'), (DRAWNS,u'style-name'),
+        (DRAWNS,u'text-style-name'),
+        (FORMNS,u'text-style-name'),
+        (PRESENTATIONNS,u'presentation-page-layout-name'), (PRESENTATIONNS,u'style-name'),
+        (STYLENS,u'apply-style-name'), (STYLENS,u'data-style-name'), (STYLENS,u'leader-text-style'),
+        (STYLENS,u'list-style-name'), (STYLENS,u'master-page-name'), (STYLENS,u'next-style-name'),
+        (STYLENS,u'page-layout-name'), (STYLENS,u'parent-style-name'),
+        (STYLENS,u'percentage-data-style-name'), (STYLENS,u'register-truth-ref-style-name'),
+        (STYLENS,u'style-name'), (STYLENS,u'text-line-through-text-style'),
+        (TABLENS,u'default-cell-style-name'), (TABLENS,u'paragraph-style-name'), (TABLENS,u'style-name'),
+        (TEXTNS,u'citation-body-style-name'), (TEXTNS,u'citation-style-name'),
+        (TEXTNS,u'cond-style-name'), (TEXTNS,u'default-style-name'),
+        (TEXTNS,u'main-entry-style-name'), (TEXTNS,u'master-page-name'), (TEXTNS,u'style-name'),
+        (TEXTNS,u'style-override'), (TEXTNS,u'visited-style-name') )
+    # ... and the ones holding a white-space separated list of names (styleNameRefs)
+    _STYLE_REF_LIST_ATTRS = (
+        (DRAWNS,u'class-names'), (DRAWNS,u'stroke-dash-names'),
+        (PRESENTATIONNS,u'class-names'), (TEXTNS,u'class-names') )
+
+    def _stylerefs_of(self, e, stylenamelist):
+        """
+        Adds the style names element e and its descendants refer to
+        @return the list of style names as unicode strings
+        """
+        for styleref in self._STYLE_REF_ATTRS:
+            stylename = e.getAttrNS(styleref[0],styleref[1])
+            if stylename and unicode(stylename) not in stylenamelist:
+                stylenamelist.append(unicode(stylename))
+        for styleref in self._STYLE_REF_LIST_ATTRS:
+            for stylename in unicode(e.getAttrNS(styleref[0],styleref[1]) or u'').split():
+                if stylename not in stylenamelist:
+                    stylenamelist.append(stylename)
+        return self._parseoneelement(e, stylenamelist)
+
     def _parseoneelement(self, top, stylenamelist):
         """
-        Finds references to style objects in master-styles
+        Finds references to style objects below top
         and add the style name to the style list if not already there.
         Recursive
         @return the list of style names as unicode strings
         """
         for e in top.childNodes:
             if e.nodeType == element.Node.ELEMENT_NODE:
-                for styleref in (
-                        (CHARTNS,u'style-name'),
-                        (DRAWNS,u'style-name'),
-                        (DRAWNS,u'text-style-name'),
-                        (PRESENTATIONNS,u'style-name'),
-                        (STYLENS,u'data-style-name'),
-                        (STYLENS,u'list-style-name'),
-                        (STYLENS,u'page-layout-name'),
-                        (STYLENS,u'style-name'),
-                        (TABLENS,u'default-cell-style-name'),
-                        (TABLENS,u'style-name'),
-                        (TEXTNS,u'style-name') ):
-                    if e.getAttrNS(styleref[0],styleref[1]):
-                        stylename = e.getAttrNS(styleref[0],styleref[1])
-                        if stylename not in stylenamelist:
-                            # due to the polymorphism of e.getAttrNS(),
-                            # a unicode type is enforced for elements
-                            stylenamelist.append(unicode(stylename))
-                stylenamelist = self._parseoneelement(e, stylenamelist)
+                stylenamelist = self._stylerefs_of(e, stylenamelist)
         return stylenamelist
 
     def _used_auto_styles(self, segments):
         """
-        Loop through the masterstyles elements, and find the automatic
-        styles that are used. These will be added to the automatic-styles
-        element in styles.xml
+        Loop through the given segments (body, master styles, ...) and find
+        the automatic styles that are used there, directly or through another
+        used automatic style.
         @return a list of element.Element instances
         """
         stylenamelist = []
         for top in segments:
             stylenamelist = self._parseoneelement(top, stylenamelist)
-        stylelist = []
-        for e in self.automaticstyles.childNodes:
-            if isinstance(e, element.Element) and e.getAttrNS(STYLENS,u'name') in stylenamelist:
-                stylelist.append(e)
-
-        # check the type of the returned data
-        ok=True
-        for e in stylelist: ok = ok and isinstance(e, element.Element)
-        assert(ok)
-
-        return stylelist
+        autostyles = [e for e in self.automaticstyles.childNodes if isinstance(e, element.Element)]
+        scanned = set()
+        grown = True
+        while grown:                      # closure: what a used automatic style refers to is used too
+            grown = False
+            for e in autostyles:
+                if id(e) not in scanned and e.getAttrNS(STYLENS,u'name') in stylenamelist:
+                    scanned.add(id(e))
+                    stylenamelist = self._stylerefs_of(e, stylenamelist)
+                    grown = True
+        return [e for e in autostyles if id(e) in scanned]
 
     def stylesxml(self):
         """
